@@ -6,6 +6,7 @@ import (
 	"encoding/json"
 	"fmt"
 	"os"
+	"path/filepath"
 	"runtime/debug"
 	"strings"
 	"testing"
@@ -328,6 +329,29 @@ func c07Property(t *rapid.T) {
 	a1, err := c07Totality(w, a, ro)
 	if err != nil {
 		t.Fatalf("%v\n document: %s", err, describeWild(a))
+	}
+	// the path-based entry point behaves like the stream one: same verdict, same content
+	{
+		ff := rapid.SampledFrom(registeredOutputFormats()).Draw(t, "fileformat")
+		path := filepath.Join(c06TempDir(), "c07-out.json")
+		var ferr error
+		withWatchdog(t, 15*time.Second, "WriteFileWithOptions("+string(ff)+")", func() {
+			ferr = w.WriteFileWithOptions(a.build(), path, &writer.Options{Format: ff, RenderOptions: ro})
+		})
+		if (ferr != nil) != (a1[ff] == "ERROR") {
+			t.Fatalf("WriteFileWithOptions(%s) returned error %v but WriteStreamWithOptions on the same document gave %s\n document: %s", ff, ferr, trunc(a1[ff], 200), describeWild(a))
+		}
+		if ferr == nil {
+			data, rerr := os.ReadFile(path)
+			if rerr != nil {
+				t.Fatalf("WriteFileWithOptions(%s) succeeded but the file cannot be read: %v", ff, rerr)
+			}
+			c, cerr := hx.CanonJSON(data, blankTimestamps)
+			if cerr != nil || c != a1[ff] {
+				t.Fatalf("WriteFileWithOptions(%s) wrote something else than WriteStreamWithOptions (err=%v):\n file  : %s\n stream: %s", ff, cerr, trunc(c, 1200), trunc(a1[ff], 1200))
+			}
+			hx.Class("written_to_file")
+		}
 	}
 	if _, err := c07Totality(w, b, ro); err != nil {
 		t.Fatalf("%v\n document: %s", err, describeWild(b))
